@@ -1,5 +1,5 @@
 //! Runs request lines of a byte-level harness domain (the same runners and property oracles as the
-//! native harness: `harness/src/d_buffer.rs`, `d_packer.rs`, `d_huffman.rs`, `d_packet6.rs`) under
+//! native harness: `harness/src/d_*.rs` of every domain except `map`) under
 //! Miri and compares every output line with the line the Lean model produced.
 //! Usage: tw-harness-miri <domain> <requests> <model-outputs>
 #![allow(dead_code)]
@@ -9,12 +9,54 @@ mod d_buffer;
 mod d_huffman;
 #[path = "../../harness/src/d_packer.rs"]
 mod d_packer;
+#[path = "../../harness/src/d_browse.rs"]
+mod d_browse;
+#[path = "../../harness/src/d_conn6.rs"]
+mod d_conn6;
+#[path = "../../harness/src/d_conn7.rs"]
+mod d_conn7;
+#[path = "../../harness/src/d_datafile.rs"]
+mod d_datafile;
+#[path = "../../harness/src/d_demohl.rs"]
+mod d_demohl;
+#[path = "../../harness/src/d_gamenet.rs"]
+mod d_gamenet;
+#[path = "../../harness/src/d_map.rs"]
+mod d_map;
+#[path = "../../harness/src/d_net.rs"]
+mod d_net;
+#[path = "../../harness/src/d_recv.rs"]
+mod d_recv;
+#[path = "../../harness/src/d_snapmgr.rs"]
+mod d_snapmgr;
+#[path = "../../harness/src/d_snapmgrc.rs"]
+mod d_snapmgrc;
+#[path = "../../harness/src/d_demo.rs"]
+mod d_demo;
 #[path = "../../harness/src/d_packet6.rs"]
 mod d_packet6;
+#[path = "../../harness/src/d_packet7.rs"]
+mod d_packet7;
+#[path = "../../harness/src/d_snap.rs"]
+mod d_snap;
+#[path = "../../harness/src/d_teehist.rs"]
+mod d_teehist;
 #[path = "../../harness/src/util.rs"]
 mod util;
 
+/// `d_map.rs` names its sibling as `crate::domains::d_datafile` (the native harness's generated module)
+mod domains {
+    pub(crate) use crate::d_datafile;
+}
+
 use std::io::BufRead;
+
+/// `harness/src/d_datafile.rs` tunes glibc's allocator through `mallopt` (C, behind FFI).  Miri
+/// resolves a foreign call to an exported Rust function of the same name: make it a no-op here.
+#[no_mangle]
+pub extern "C" fn mallopt(_param: i32, _value: i32) -> i32 {
+    1
+}
 
 fn main() {
     util::install_panic_hook();
@@ -24,6 +66,21 @@ fn main() {
         "packer" => d_packer::domain(),
         "huffman" => d_huffman::domain(),
         "packet6" => d_packet6::domain(),
+        "packet7" => d_packet7::domain(),
+        "snap" => d_snap::domain(),
+        "teehist" => d_teehist::domain(),
+        "demo" => d_demo::domain(),
+        "datafile" => d_datafile::domain(),
+        "map" => d_map::domain(),
+        "browse" => d_browse::domain(),
+        "gamenet" => d_gamenet::domain(),
+        "recv" => d_recv::domain(),
+        "snapmgr" => d_snapmgr::domain(),
+        "snapmgrc" => d_snapmgrc::domain(),
+        "conn6" => d_conn6::domain(),
+        "conn7" => d_conn7::domain(),
+        "net" => d_net::domain(),
+        "demohl" => d_demohl::domain(),
         x => panic!("unknown domain {}", x),
     };
     let req = std::io::BufReader::new(std::fs::File::open(&args[2]).expect("requests"));
